@@ -11,4 +11,4 @@ cd $SB
 # SB_EXTRA: files not (yet) in _CoqProject, appended in the scratch copy only
 for f in $SB_EXTRA; do grep -q "^$f\$" _CoqProject || echo $f >> _CoqProject; done
 coq_makefile -f _CoqProject -o Makefile >/dev/null 2>&1
-timeout 1500 make -j12 "$@" 2>&1 | grep -v "^COQDEP\|^COQC\|Warning\|^make\[" | tail -40
+timeout ${SB_TIMEOUT:-600} make -j12 "$@" 2>&1 | grep -v "^COQDEP\|^COQC\|Warning\|^make\[" | tail -40
